@@ -455,6 +455,8 @@ pub fn get_best_move_until_stop(
     continue_running: &AtomicBool,
     max_depth: Option<u8>,
 ) -> Option<Move> {
+    #[cfg(daniel729_chess_verif)]
+    crate::verif_hooks::search_begin();
     // Fall back to a legal move in case the search is stopped before depth 1 completes
     let mut found_move = {
         let mut moves = ArrayVec::new();
